@@ -89,7 +89,7 @@ def run(ctx):
             continue
         cc.append(("corpus:" + label, asts, fs))
     # 2. generated programs and single-rule mutants
-    progs = G.gen_cases(rng, ctx.budget(40, 1500), ctx.budget(5, 6), small=(ctx.tier != "thorough"))
+    progs = G.gen_cases(rng, ctx.budget(32, 1500), ctx.budget(5, 6), small=(ctx.tier != "thorough"))
     texts = G.render_sets(rng, progs)
     gc = [(label, files, t) for (label, files), t in zip(progs, texts)]
     allc = cc + gc
